@@ -474,15 +474,20 @@ def inline_fresh_helpers(tree: ast.Module, ref_mod: dict) -> None:
                 for p in ps:
                     a = amap[p]
                     if p in reassigned:
-                        if isinstance(a, ast.Name) and a.id == p:
-                            continue
                         # in-place update `x = h(x, ...)`: the parameter is the caller's variable under another name
                         if isinstance(a, ast.Name) and loc0 is not None and isinstance(loc0[2], ast.Assign) and len(loc0[2].targets) == 1 \
                                 and isinstance(loc0[2].targets[0], ast.Name) and loc0[2].targets[0].id == a.id and a.id not in (_assigned_names(h) - {p}):
                             ren[p] = a.id
                             continue
-                        bad = True
-                        break
+                        # the helper re-binds its parameter: that is the helper's own variable, never the caller's (also when
+                        # the caller's variable has the same name) -- it becomes a local copy of the argument
+                        pname = f"{p}__{nth}"
+                        if pname in caller_names:
+                            bad = True
+                            break
+                        ren[p] = pname
+                        pre.append(ast.Assign(targets=[ast.Name(id=pname, ctx=ast.Store())], value=copy.deepcopy(a)))
+                        continue
                     # an argument is evaluated at the call: only what cannot change inside the helper may be put where the
                     # parameter is read (a name the helper does not assign, a literal, or anything when the helper is a single
                     # expression); everything else is bound to a local first and left to the temp inliner
